@@ -258,54 +258,46 @@ Proof.
   apply burst_real_mono; lia.
 Qed.
 
-(* the calls themselves *)
-Lemma calc_next_quota_allocate i qb : i_count i = false -> calc_next_quota i = Some qb ->
-  exists next, qb = calc_with next i.
-Proof.
-  unfold calc_next_quota. intros -> H. destruct (heuristic i) as [next|]; [|discriminate].
-  exists next. congruence.
-Qed.
+(* the calls themselves: calculateNextQuota always answers (the type is total: no panic is left) *)
+Lemma calc_next_quota_allocate i : i_count i = false -> calc_next_quota i = calc_with (heuristic i) i.
+Proof. unfold calc_next_quota. intros ->. reflexivity. Qed.
 
 Lemma calc_next_quota_count i : i_count i = true ->
-  calc_next_quota i = Some (i_total i, match i_typ i with TBucket => i_gburst i | TMax => 0 end).
+  calc_next_quota i = (i_total i, match i_typ i with TBucket => i_gburst i | TMax => 0 end).
 Proof. unfold calc_next_quota. intros ->. reflexivity. Qed.
 
 (* both forms of each per-call statement: for an arbitrary heuristic value, and for the call *)
 Lemma floor_both : forall i, ints_ok i ->
   (forall next, 1 <= fst (calc_with next i)) /\
-  (forall q b, i_count i = false -> calc_next_quota i = Some (q, b) -> 1 <= q).
+  (i_count i = false -> 1 <= fst (calc_next_quota i)).
 Proof.
   intros i H. split; [intros next; apply calc_floor; exact H|].
-  intros q b Hc E. destruct (calc_next_quota_allocate i (q, b) Hc E) as (next & Eq).
-  change q with (fst (q, b)). rewrite Eq. apply calc_floor; exact H.
+  intros Hc. rewrite (calc_next_quota_allocate i Hc). apply calc_floor; exact H.
 Qed.
 
 Lemma cap_both : forall i, ints_ok i ->
   (forall next, fst (calc_with next i) <= Z.max 1 (i_total i)) /\
-  (forall q b, i_count i = false -> calc_next_quota i = Some (q, b) -> q <= Z.max 1 (i_total i)).
+  (i_count i = false -> fst (calc_next_quota i) <= Z.max 1 (i_total i)).
 Proof.
   intros i H. split; [intros next; apply calc_cap; exact H|].
-  intros q b Hc E. destruct (calc_next_quota_allocate i (q, b) Hc E) as (next & Eq).
-  change q with (fst (q, b)). rewrite Eq. apply calc_cap; exact H.
+  intros Hc. rewrite (calc_next_quota_allocate i Hc). apply calc_cap; exact H.
 Qed.
 
 Lemma step_safe_both : forall i, ints_ok i -> 0 <= i_current i -> i_allocated i <= i_total i ->
   (forall next, i_allocated i - i_current i + fst (calc_with next i) <= i_total i \/ fst (calc_with next i) = 1) /\
-  (forall q b, i_count i = false -> calc_next_quota i = Some (q, b) ->
-     i_allocated i - i_current i + q <= i_total i \/ q = 1).
+  (i_count i = false ->
+     i_allocated i - i_current i + fst (calc_next_quota i) <= i_total i \/ fst (calc_next_quota i) = 1).
 Proof.
   intros i H Hc Hs. split; [intros next; apply calc_step_safe; assumption|].
-  intros q b Hcnt E. destruct (calc_next_quota_allocate i (q, b) Hcnt E) as (next & Eq).
-  change q with (fst (q, b)). rewrite Eq. apply calc_step_safe; assumption.
+  intros Hcnt. rewrite (calc_next_quota_allocate i Hcnt). apply calc_step_safe; assumption.
 Qed.
 
 Lemma no_growth_both : forall i, ints_ok i -> 0 <= i_current i -> i_total i < i_allocated i ->
   (forall next, fst (calc_with next i) <= Z.max 1 (i_current i)) /\
-  (forall q b, i_count i = false -> calc_next_quota i = Some (q, b) -> q <= Z.max 1 (i_current i)).
+  (i_count i = false -> fst (calc_next_quota i) <= Z.max 1 (i_current i)).
 Proof.
   intros i H Hc Hs. split; [intros next; apply calc_no_growth; assumption|].
-  intros q b Hcnt E. destruct (calc_next_quota_allocate i (q, b) Hcnt E) as (next & Eq).
-  change q with (fst (q, b)). rewrite Eq. apply calc_no_growth; assumption.
+  intros Hcnt. rewrite (calc_next_quota_allocate i Hcnt). apply calc_no_growth; assumption.
 Qed.
 
 Lemma burst_both :
@@ -321,7 +313,7 @@ Lemma burst_both :
      snd (calc_with next1 i1) <= snd (calc_with next2 i2)).
 Proof. split; [exact calc_burst_le|split; [exact calc_burst|exact calc_burst_mono]]. Qed.
 
-(* ============================ Part B: histories ============================ *)
+(* ============================ Part B: histories of one schema ============================ *)
 
 (* from here on the numeric function is used only through its specification above *)
 Opaque calc_next_quota.
@@ -329,13 +321,15 @@ Strategy opaque [calc_next_quota calc_with heuristic finalize].
 
 Definition qs_ok (l : list (Z * (Z * Z))) : Prop := Forall (fun e => 0 <= fst (snd e) < two31) l.
 
-Record wf (s : hstate) : Prop := {
+Record wf (s : sstate) : Prop := {
   wf_q : qs_ok (h_quotas s);
-  wf_limit : in_int32 (h_limit s);
+  wf_oq : qs_ok (h_oquotas s);
+  wf_limit : 0 <= h_limit s < two31;          (* what validation admits *)
   wf_burst : in_int32 (h_burst s);
   (* the sum on record is never below the (saturated) true sum: equal after a report,
      possibly stale-high after a removal *)
-  wf_rec : Z.min (quota_sum (h_quotas s)) (two31 - 1) <= h_rec s < two31
+  wf_rec : Z.min (quota_sum (h_quotas s)) (two31 - 1) <= h_rec s < two31;
+  wf_orec : Z.min (quota_sum (h_oquotas s)) (two31 - 1) <= h_orec s < two31
 }.
 
 Fixpoint qsum_i (i : Z) (l : list (Z * (Z * Z))) : Z :=
@@ -422,143 +416,188 @@ Definition good_answer (isb : bool) (L G : Z) (qb : Z * Z) : Prop :=
   (isb = true -> 1 <= L -> 0 <= G -> snd qb = burst_real (fst qb) L G) /\
   (isb = true -> snd qb <= G).
 
-Definition same_cfg (s s' : hstate) : Prop :=
+Definition same_cfg (s s' : sstate) : Prop :=
   h_typ s' = h_typ s /\ h_limit s' = h_limit s /\ h_burst s' = h_burst s.
 
-Lemma report_inputs_ok s i used level up : wf s -> ints_ok (report_inputs s i used level up).
+Lemma current_of_le s i typed : qs_ok (h_quotas s) ->
+  let c := current_of s i typed in
+  0 <= c < two31 /\ c <= qsum_i i (h_quotas s) /\ above1 c <= fsum_i i (h_quotas s).
 Proof.
-  intros W. unfold ints_ok, report_inputs; cbn.
-  destruct (current_le i (h_quotas s) (wf_q s W)) as (Hc & _). cbv zeta in Hc.
-  destruct (wf_rec s W) as (Hr1 & Hr2). pose proof (sums_nonneg _ (wf_q s W)) as Hs.
-  split; [|split].
-  - unfold current_of, in_int32, two31 in *. lia.
-  - exact (wf_limit s W).
-  - unfold in_int32, two31 in *. lia.
+  intros Q. unfold current_of. destruct typed.
+  - exact (current_le i (h_quotas s) Q).
+  - pose proof (isums_nonneg i _ Q). cbv zeta. unfold above1, two31. destruct (Z.leb_spec 0 1); lia.
 Qed.
 
-(* one report *)
-Lemma report_step s i used level up : wf s ->
-  let c := current_of s i in
+Lemma report_inputs_ok s i typed count used level up clients : wf s ->
+  ints_ok (report_inputs s i typed count used level up clients).
+Proof.
+  intros W. unfold ints_ok, report_inputs; cbn [i_current i_total i_allocated].
+  destruct (current_of_le s i typed (wf_q s W)) as (Hc & _). cbv zeta in Hc.
+  destruct (wf_rec s W) as (Hr1 & Hr2). pose proof (sums_nonneg _ (wf_q s W)) as Hs.
+  pose proof (wf_limit s W).
+  split; [|split]; unfold in_int32, two31 in *; lia.
+Qed.
+
+Lemma sat32_bounds S : 0 <= S -> Z.min S (two31 - 1) <= sat32 S < two31.
+Proof. unfold sat32, two31. lia. Qed.
+
+(* one report item *)
+Lemma rep_step s i typed count used level up clients : wf s ->
+  let c := current_of s i typed in
   let L := h_limit s in
-  let r := step s (OReport i used level up) in
-  wf (fst r) /\ same_cfg s (fst r) /\
-  match snd r with
-  | None => h_quotas (fst r) = h_quotas s
-  | Some qb =>
+  let r := sstep s (SRep i typed count used level up clients) in
+  wf (fst r) /\ same_cfg s (fst r) /\ h_oquotas (fst r) = remove_inst i (h_oquotas s) /\
+  exists qb, snd r = Some qb /\
+    (count = true -> qb = (L, if is_bucket (h_typ s) then h_burst s else 0)) /\
+    (count = false ->
       good_answer (is_bucket (h_typ s)) L (h_burst s) qb /\
       (quota_sum (h_quotas s) <= L -> quota_sum (h_quotas (fst r)) <= L \/ fst qb = 1) /\
       (L < quota_sum (h_quotas s) -> fst qb <= Z.max 1 c) /\
-      rec_sum1 (h_quotas (fst r)) <= Z.max L (rec_sum1 (h_quotas s))
-  end.
+      rec_sum1 (h_quotas (fst r)) <= Z.max L (rec_sum1 (h_quotas s))).
 Proof.
-  intros W c L r. subst r. unfold step.
-  pose proof (report_inputs_ok s i used level up W) as IO.
-  destruct (calc_next_quota (report_inputs s i used level up)) as [qb|] eqn:E; cbn [fst snd].
-  - destruct (calc_next_quota_allocate (report_inputs s i used level up) qb eq_refl E) as (next & ->).
-    pose proof (calc_with_spec next _ IO) as SP. cbv zeta in SP.
-    set (q := fst (calc_with next (report_inputs s i used level up))) in *.
-    set (b := snd (calc_with next (report_inputs s i used level up))) in *.
-    destruct SP as (Hq & Hg & Bm & Bb & Ble). cbn [report_inputs i_total i_current i_allocated i_typ i_gburst] in Hq, Hg, Bm, Bb, Ble.
+  intros W c L r. subst r. unfold sstep. cbn [fst snd].
+  pose proof (report_inputs_ok s i typed count used level up clients W) as IO.
+  set (qb := calc_next_quota (report_inputs s i typed count used level up clients)).
+  pose proof (qs_ok_remove i _ (wf_q s W)) as QR.
+  pose proof (qs_ok_remove i _ (wf_oq s W)) as QOR.
+  pose proof (sums_nonneg _ QR) as SR. pose proof (sums_nonneg _ QOR) as SOR.
+  pose proof (wf_limit s W) as WL. fold L in WL.
+  assert (Hq0 : 0 <= fst qb < two31 ->
+          wf {| h_typ := h_typ s; h_limit := h_limit s; h_burst := h_burst s;
+                h_quotas := set_inst i qb (h_quotas s); h_rec := sat32 (quota_sum (set_inst i qb (h_quotas s)));
+                h_oquotas := remove_inst i (h_oquotas s); h_orec := sat32 (quota_sum (remove_inst i (h_oquotas s))) |}).
+  { intros Hq. constructor; cbn [h_quotas h_oquotas h_limit h_burst h_rec h_orec].
+    - unfold set_inst. constructor; [cbn [fst snd]; exact Hq|exact QR].
+    - exact QOR.
+    - exact WL.
+    - exact (wf_burst s W).
+    - apply sat32_bounds. unfold set_inst. rewrite quota_sum_cons. cbn [fst snd]. lia.
+    - apply sat32_bounds. lia. }
+  destruct count.
+  - (* count strategy: the global values *)
+    assert (E : qb = (L, if is_bucket (h_typ s) then h_burst s else 0)).
+    { unfold qb. rewrite calc_next_quota_count by reflexivity. cbn [report_inputs i_total i_typ i_gburst].
+      destruct (h_typ s); reflexivity. }
+    split; [apply Hq0; rewrite E; cbn [fst]; exact WL|].
+    split; [repeat split|]. split; [reflexivity|].
+    exists qb. split; [reflexivity|]. split; [intros _; exact E|discriminate].
+  - pose proof (calc_with_spec (heuristic (report_inputs s i typed false used level up clients)) _ IO) as SP.
+    cbv zeta in SP.
+    rewrite <- (calc_next_quota_allocate (report_inputs s i typed false used level up clients) eq_refl) in SP. fold qb in SP.
+    destruct SP as (Hq & Hg & Bm & Bb & Ble).
+    cbn [report_inputs i_total i_current i_allocated i_typ i_gburst] in Hq, Hg, Bm, Bb, Ble.
     fold c in Hg. fold L in Hq, Hg, Bb.
-    destruct (current_le i (h_quotas s) (wf_q s W)) as (Hc & HcD & HcF). cbv zeta in Hc, HcD, HcF.
-    fold (current_of s i) in Hc, HcD, HcF. fold c in Hc, HcD, HcF.
-    pose proof (qs_ok_remove i _ (wf_q s W)) as QR.
-    pose proof (sums_nonneg _ QR) as SR.
-    pose proof (wf_limit s W) as WL. fold L in WL.
+    destruct (current_of_le s i typed (wf_q s W)) as (Hc & HcD & HcF). cbv zeta in Hc, HcD, HcF.
+    fold c in Hc, HcD, HcF.
     destruct (wf_rec s W) as (Hr1 & Hr2).
-    assert (Hgrow : q = 1 \/ q <= c + Z.max (L - h_rec s) 0) by (apply Hg; lia).
+    assert (Hgrow : fst qb = 1 \/ fst qb <= c + Z.max (L - h_rec s) 0) by (apply Hg; lia).
     destruct (step_arith L (quota_sum (h_quotas s)) (quota_sum (remove_inst i (h_quotas s)))
                 (rec_sum1 (remove_inst i (h_quotas s))) (qsum_i i (h_quotas s)) (fsum_i i (h_quotas s))
-                c (h_rec s) q (rec_sum1 (h_quotas s))) as (A1 & A2 & A3);
+                c (h_rec s) (fst qb) (rec_sum1 (h_quotas s))) as (A1 & A2 & A3);
       try assumption; try lia.
-    { unfold in_int32 in WL; lia. }
     { rewrite quota_sum_remove; lia. }
     { rewrite rec_sum1_remove; lia. }
-    assert (Eqb : calc_with next (report_inputs s i used level up) = (q, b)) by (unfold q, b; destruct (calc_with _ _); reflexivity).
-    rewrite Eqb. unfold set_inst. cbn [fst snd].
-    split; [|split; [repeat split|split; [|split; [|split]]]].
-    + constructor; cbn [h_quotas h_limit h_burst h_rec].
-      * constructor; [cbn [fst snd]; unfold in_int32, two31 in *; lia|exact QR].
-      * exact WL.
-      * exact (wf_burst s W).
-      * rewrite quota_sum_cons. cbn [fst snd]. unfold sat32, two31 in *. lia.
-    + unfold good_answer. cbn [fst snd]. split; [exact Hq|]. split; [|split].
+    split; [apply Hq0; unfold two31 in *; lia|].
+    split; [repeat split|]. split; [reflexivity|].
+    exists qb. split; [reflexivity|]. split; [discriminate|]. intros _.
+    split; [|split; [|split]].
+    + unfold good_answer. split; [exact Hq|]. split; [|split].
       * intros Hb. apply Bm. destruct (h_typ s); [reflexivity|discriminate].
       * intros Hb H1 HG. apply Bb; [destruct (h_typ s); [discriminate|reflexivity]|exact H1|].
         pose proof (wf_burst s W) as WB. unfold in_int32 in WB. lia.
       * intros Hb. apply Ble; [destruct (h_typ s); [discriminate|reflexivity]|exact (wf_burst s W)].
-    + cbn [h_quotas]. rewrite quota_sum_cons. cbn [fst snd]. exact A1.
+    + cbn [h_quotas]. unfold set_inst. rewrite quota_sum_cons. cbn [fst snd]. exact A1.
     + exact A2.
-    + cbn [h_quotas]. rewrite rec_sum1_cons. cbn [fst snd]. exact A3.
-  - split; [|split; [repeat split|reflexivity]].
-    constructor; cbn; [exact (wf_q s W)|exact (wf_limit s W)|exact (wf_burst s W)|exact (wf_rec s W)].
+    + cbn [h_quotas]. unfold set_inst. rewrite rec_sum1_cons. cbn [fst snd]. exact A3.
 Qed.
 
-(* the other operations *)
-Lemma wf_init t limit burst extra : in_int32 limit -> in_int32 burst -> wf (init t limit burst extra).
+Lemma drop_step s i rc : wf s ->
+  let s' := fst (sstep s (SDrop i rc)) in
+  wf s' /\ same_cfg s s' /\ h_quotas s' = remove_inst i (h_quotas s) /\ h_oquotas s' = remove_inst i (h_oquotas s).
 Proof.
-  intros Hl Hb. constructor; cbn [init h_quotas h_limit h_burst h_rec]; [constructor|exact Hl|exact Hb|].
-  cbn. unfold two31. lia.
+  intros W. unfold sstep. cbn [fst].
+  pose proof (isums_nonneg i _ (wf_q s W)). pose proof (isums_nonneg i _ (wf_oq s W)).
+  pose proof (qs_ok_remove i _ (wf_q s W)) as QR. pose proof (qs_ok_remove i _ (wf_oq s W)) as QOR.
+  pose proof (sums_nonneg _ QR). pose proof (sums_nonneg _ QOR).
+  destruct (wf_rec s W). destruct (wf_orec s W).
+  split; [|split; [repeat split|split; reflexivity]].
+  constructor; cbn [h_quotas h_oquotas h_limit h_burst h_rec h_orec];
+    [exact QR|exact QOR|exact (wf_limit s W)|exact (wf_burst s W)| |].
+  - destruct rc; [apply sat32_bounds; lia|rewrite quota_sum_remove; lia].
+  - destruct rc; [apply sat32_bounds; lia|rewrite quota_sum_remove; lia].
 Qed.
 
-Lemma beat_step s i : wf s ->
-  let s' := fst (step s (OBeat i)) in
-  wf s' /\ same_cfg s s' /\ h_quotas s' = h_quotas s.
+Lemma typ_eqb_bucket bk t : ftype_eqb (typ_of bk) t = Bool.eqb bk (is_bucket t).
+Proof. destruct bk, t; reflexivity. Qed.
+
+Lemma set_step s bk n g : wf s -> 0 <= n < two31 -> in_int32 g ->
+  let s' := fst (sstep s (SSet (typ_of bk) n g)) in
+  wf s' /\ h_typ s' = typ_of bk /\ h_limit s' = n /\ h_burst s' = g /\
+  h_quotas s' = (if Bool.eqb bk (is_bucket (h_typ s)) then h_quotas s else h_oquotas s) /\
+  h_oquotas s' = (if Bool.eqb bk (is_bucket (h_typ s)) then h_oquotas s else h_quotas s).
 Proof.
-  intros W. cbn. split; [|split; [repeat split|reflexivity]].
-  constructor; cbn; [exact (wf_q s W)|exact (wf_limit s W)|exact (wf_burst s W)|exact (wf_rec s W)].
+  intros W Hn Hg. unfold sstep. rewrite typ_eqb_bucket.
+  destruct (Bool.eqb bk (is_bucket (h_typ s))); cbn [fst]; (split; [|repeat split]);
+    constructor; cbn [h_quotas h_oquotas h_limit h_burst h_rec h_orec];
+    first [exact (wf_q s W)|exact (wf_oq s W)|exact Hn|exact Hg|exact (wf_rec s W)|exact (wf_orec s W)].
 Qed.
 
-Lemma beat_all_ok rs : forall s, wf s ->
-  wf (beat_all s rs) /\ same_cfg s (beat_all s rs) /\ h_quotas (beat_all s rs) = h_quotas s.
+Lemma wf_sinit t limit burst : 0 <= limit < two31 -> in_int32 burst -> wf (sinit t limit burst).
 Proof.
-  unfold beat_all. induction rs as [|r rest IH]; intros s W.
-  - cbn. split; [exact W|split; [repeat split|reflexivity]].
-  - cbn [fold_left]. destruct (beat_step s (fst (fst (fst r))) W) as (W1 & (T1 & L1 & B1) & Q1).
-    destruct (IH _ W1) as (W2 & (T2 & L2 & B2) & Q2).
-    split; [exact W2|]. split; [repeat split; congruence|congruence].
+  intros Hl Hb. constructor; cbn [sinit h_quotas h_oquotas h_limit h_burst h_rec h_orec];
+    first [constructor; fail|exact Hl|exact Hb|cbn; unfold two31; lia].
 Qed.
 
-Lemma setlimit_step s n g : wf s -> in_int32 n -> in_int32 g ->
-  let s' := fst (step s (OSetLimit n g)) in
-  wf s' /\ h_typ s' = h_typ s /\ h_limit s' = n /\ h_burst s' = g /\ h_quotas s' = h_quotas s.
-Proof.
-  intros W Hn Hg. cbn. split; [|repeat split].
-  constructor; cbn; [exact (wf_q s W)|exact Hn|exact Hg|exact (wf_rec s W)].
-Qed.
+(* ---- a batch of entries executed in the listed order ---- *)
+Definition is_count_pair (isb : bool) (L G : Z) (qb : Z * Z) : Prop := qb = (L, if isb then G else 0).
 
-Lemma remove_step s i : wf s ->
-  let s' := fst (step s (ORemove i)) in
-  wf s' /\ same_cfg s s' /\ h_quotas s' = remove_inst i (h_quotas s).
-Proof.
-  intros W. unfold step. cbn [fst]. split; [|split; [repeat split|reflexivity]].
-  constructor; cbn [h_quotas h_limit h_burst h_rec]; [apply qs_ok_remove; exact (wf_q s W)|exact (wf_limit s W)|exact (wf_burst s W)|].
-  rewrite quota_sum_remove. destruct (wf_rec s W) as (H1 & H2).
-  pose proof (isums_nonneg i _ (wf_q s W)). lia.
-Qed.
-
-(* a batch of reports executed in the listed order *)
-Lemma run_reports_ok rs : forall s, wf s ->
-  let r := run_reports s rs in
+Lemma run_entries_ok rs : forall s, wf s ->
+  let r := run_entries s rs in
+  let cs := item_counts rs in
+  let ans := snd (snd r) in
   wf (fst r) /\ same_cfg s (fst r) /\
-  Forall (good_answer (is_bucket (h_typ s)) (h_limit s) (h_burst s)) (answered (snd (snd r))) /\
-  rec_sum1 (h_quotas (fst r)) <= Z.max (h_limit s) (rec_sum1 (h_quotas s)).
+  all_answered cs ans = true /\
+  Forall (good_answer (is_bucket (h_typ s)) (h_limit s) (h_burst s)) (answers_with false cs ans) /\
+  Forall (is_count_pair (is_bucket (h_typ s)) (h_limit s) (h_burst s)) (answers_with true cs ans) /\
+  (answers_with true cs ans = [] ->
+     rec_sum1 (h_quotas (fst r)) <= Z.max (h_limit s) (rec_sum1 (h_quotas s))).
 Proof.
-  induction rs as [|[[[i used] level] up] rest IH]; intros s W.
-  - cbn. split; [exact W|]. split; [repeat split|]. split; [constructor|lia].
-  - cbn [run_reports report_op fst].
-    pose proof (report_step s i used level up W) as RS. cbv zeta in RS.
-    destruct (step s (OReport i used level up)) as [s1 a] eqn:E1. cbn [fst snd] in RS.
-    destruct RS as (W1 & (T1 & L1 & B1) & RA).
-    specialize (IH s1 W1). cbv zeta in IH.
-    destruct (run_reports s1 rest) as [s2 [cs ans]] eqn:E2. cbn [fst snd] in IH |- *.
-    destruct IH as (W2 & (T2 & L2 & B2) & GA & F2).
-    rewrite T1, L1, B1 in GA. rewrite L1 in F2.
-    split; [exact W2|]. split; [repeat split; congruence|].
-    destruct a as [qb|].
-    + destruct RA as (G1 & _ & _ & F1). cbn [answered flat_map app].
-      split; [constructor; [exact G1|exact GA]|]. lia.
-    + cbn [answered flat_map app]. rewrite RA in F2. split; [exact GA|exact F2].
+  induction rs as [|e rest IH]; intros s W.
+  - cbn. split; [exact W|]. split; [repeat split|]. split; [reflexivity|].
+    split; [constructor|]. split; [constructor|]. intros _. lia.
+  - cbn [run_entries].
+    destruct e as [i typed count used level up clients|i].
+    + cbn [sop_of_entry].
+      pose proof (rep_step s i typed count used level up clients W) as RS. cbv zeta in RS.
+      destruct (sstep s (SRep i typed count used level up clients)) as [s1 a] eqn:E1. cbn [fst snd] in RS.
+      destruct RS as (W1 & (T1 & L1 & B1) & _ & qb & -> & Hcnt & Hall).
+      specialize (IH s1 W1). cbv zeta in IH.
+      destruct (run_entries s1 rest) as [s2 [cs ans]] eqn:E2. cbn [fst snd] in IH |- *.
+      destruct IH as (W2 & (T2 & L2 & B2) & AA & GA & GC & F2).
+      rewrite T1, L1, B1 in GA, GC. rewrite L1 in F2.
+      cbn [item_counts flat_map app]. fold (item_counts rest).
+      split; [exact W2|]. split; [repeat split; congruence|].
+      split.
+      { unfold all_answered in *. cbn [List.length forallb]. rewrite Bool.andb_true_iff in *.
+        destruct AA as (A1 & A2). split; [|exact A2]. rewrite Nat.eqb_eq in *. lia. }
+      destruct count; cbn [answers_with Bool.eqb].
+      * split; [exact GA|]. split; [constructor; [exact (Hcnt eq_refl)|exact GC]|discriminate].
+      * destruct (Hall eq_refl) as (G1 & _ & _ & F1).
+        split; [constructor; [exact G1|exact GA]|]. split; [exact GC|].
+        intros En. specialize (F2 En). lia.
+    + cbn [sop_of_entry].
+      pose proof (drop_step s i true W) as DS. cbv zeta in DS.
+      destruct (sstep s (SDrop i true)) as [s1 a] eqn:E1. cbn [fst] in DS.
+      destruct DS as (W1 & (T1 & L1 & B1) & Q1 & _).
+      specialize (IH s1 W1). cbv zeta in IH.
+      destruct (run_entries s1 rest) as [s2 [cs ans]] eqn:E2. cbn [fst snd] in IH |- *.
+      destruct IH as (W2 & (T2 & L2 & B2) & AA & GA & GC & F2).
+      rewrite T1, L1, B1 in GA, GC. rewrite L1, Q1, rec_sum1_remove in F2.
+      pose proof (isums_nonneg i _ (wf_q s W)).
+      cbn [item_counts flat_map app]. fold (item_counts rest).
+      split; [exact W2|]. split; [repeat split; congruence|].
+      split; [exact AA|]. split; [exact GA|]. split; [exact GC|].
+      intros En. specialize (F2 En). lia.
 Qed.
 
 Lemma good_answer_clauses isb L G qb : in_int32 G -> good_answer isb L G qb ->
@@ -579,141 +618,158 @@ Proof.
   - rewrite (Bm eq_refl). reflexivity.
 Qed.
 
-Lemma forallb_good isb L G (f : Z * Z -> bool) l :
-  (forall qb, good_answer isb L G qb -> f qb = true) ->
-  Forall (good_answer isb L G) l -> forallb f l = true.
+Lemma forallb_Forall {A} (P : A -> Prop) (f : A -> bool) l :
+  (forall x, P x -> f x = true) -> Forall P l -> forallb f l = true.
 Proof.
   intros Hf H. induction H as [|x r Hx Hr IH]; [reflexivity|]. cbn. rewrite (Hf x Hx), IH. reflexivity.
 Qed.
 
-Definition all6 : list bool := [true; true; true; true; true; true].
+Lemma count_pair_ok isb L G qb : is_count_pair isb L G qb -> count_ok isb L G (fst qb) (snd qb) = true.
+Proof. intros ->. unfold count_ok. cbn [fst snd]. rewrite !Z.eqb_refl. reflexivity. Qed.
 
 Definition bop_ok (o : bop) : Prop :=
-  match o with BSetLimit n g => in_int32 n /\ in_int32 g | _ => True end.
+  match o with BSet _ n g => 0 <= n < two31 /\ in_int32 g | _ => True end.
 
-Definition tagged_good (isb : bool) (a : Z * Z * Z * Z) : Prop :=
-  match a with (l, g, q, b) => in_int32 g /\ good_answer isb l g (q, b) end.
+Definition tagged_good (a : Z * Z * Z * Z) : Prop :=
+  match a with (l, g, q, b) => in_int32 g /\ good_answer true l g (q, b) end.
 
-Definition step_answers (limit gburst : Z) (o : bop) (b : sobs) : list (Z * Z * Z * Z) :=
+Definition step_answers (isb : bool) (limit gburst : Z) (o : bop) (b : sobs) : list (Z * Z * Z * Z) :=
   match o with
-  | BReports _ => map (fun qb => (limit, gburst, fst qb, snd qb)) (answered (o_ans b))
+  | BReports rs =>
+      if isb then map (fun qb => (limit, gburst, fst qb, snd qb)) (answers_with false (item_counts rs) (o_ans b))
+      else []
   | _ => []
   end.
 
-(* the two clauses that only speak about a sequential (singleton) report *)
-Lemma single_clauses s (b : sobs) s' cs ans :
-  wf s -> forall rs, run_reports (beat_all s rs) rs = (s', (cs, ans)) ->
-  match ans with
-  | [Some (q, _)] => step_safe_ok (h_limit s) (rec_sum (h_quotas s)) (rec_sum (h_quotas s')) q
-  | _ => true
-  end = true /\
-  match ans, cs with
-  | [Some (q, _)], [c] => no_growth_ok (h_limit s) (rec_sum (h_quotas s)) c q
+(* the two clauses that only speak about a sequential (singleton) allocate report *)
+Lemma single_clauses s rs s' cs ans : wf s -> run_entries s rs = (s', (cs, ans)) ->
+  match rs, ans with
+  | [EReport _ _ false _ _ _ _], [Some (q, _)] =>
+      step_safe_ok (h_limit s) (rec_sum (h_quotas s)) (rec_sum (h_quotas s')) q
   | _, _ => true
+  end = true /\
+  match rs, ans, cs with
+  | [EReport _ _ false _ _ _ _], [Some (q, _)], [c] => no_growth_ok (h_limit s) (rec_sum (h_quotas s)) c q
+  | _, _, _ => true
   end = true.
 Proof.
-  intros W rs E.
-  destruct (beat_all_ok rs s W) as (W0 & (T0 & L0 & B0) & Q0).
-  destruct rs as [|[[[i used] level] up] [|r2 rest]].
-  - cbn in E. inversion E; subst. split; reflexivity.
-  - cbn [run_reports report_op fst] in E.
-    pose proof (report_step (beat_all s [(i, used, level, up)]) i used level up W0) as RS. cbv zeta in RS.
-    destruct (step (beat_all s [(i, used, level, up)]) (OReport i used level up)) as [s1 a] eqn:E1.
+  intros W E.
+  destruct rs as [|[i typed [|] used level up clients|i] [|r2 rest]]; try (split; reflexivity).
+  - (* one allocate report *)
+    cbn [run_entries sop_of_entry] in E.
+    pose proof (rep_step s i typed false used level up clients W) as RS. cbv zeta in RS.
+    destruct (sstep s (SRep i typed false used level up clients)) as [s1 a] eqn:E1.
     cbn [fst snd] in RS. inversion E; subst. clear E.
-    destruct RS as (_ & _ & RA). destruct a as [[q b0]|]; [|split; reflexivity].
-    destruct RA as (_ & A1 & A2 & _). rewrite L0, Q0 in A1, A2. cbn [fst] in A1, A2.
+    destruct RS as (_ & _ & _ & qb & -> & _ & Hall). destruct (Hall eq_refl) as (_ & A1 & A2 & _).
+    destruct qb as [q b0]. cbn [fst] in A1, A2.
     change rec_sum with quota_sum. unfold step_safe_ok, no_growth_ok. split.
     + destruct (Z.leb_spec (quota_sum (h_quotas s)) (h_limit s)); [|reflexivity].
       destruct (A1 ltac:(lia)); lia.
     + destruct (Z.ltb_spec (h_limit s) (quota_sum (h_quotas s))); [|reflexivity].
-      specialize (A2 ltac:(lia)). unfold current_of in *. rewrite Q0 in A2. cbn [h_quotas]. lia.
-  - (* two or more reports: neither clause applies *)
-    cbn [run_reports] in E.
-    destruct (step (beat_all s ((i, used, level, up) :: r2 :: rest)) (report_op (i, used, level, up))) as [s1 a1].
-    destruct (step s1 (report_op r2)) as [s2 a2].
-    destruct (run_reports s2 rest) as [s3 [cs3 ans3]].
-    inversion E; subst. destruct a1 as [[q1 b1]|]; split; reflexivity.
+      specialize (A2 ltac:(lia)). lia.
 Qed.
+
+Definition cfg_of (s : sstate) : bool * Z * Z := (is_bucket (h_typ s), h_limit s, h_burst s).
 
 Lemma model_step_ok s o : wf s -> bop_ok o ->
   let isb := is_bucket (h_typ s) in
   let s' := fst (model_step s o) in
   let b := snd (model_step s o) in
-  wf s' /\ h_typ s' = h_typ s /\
-  limit_after (h_limit s) (h_burst s) o = (h_limit s', h_burst s') /\
-  o_quotas b = h_quotas s' /\
-  step_ok isb (h_limit s) (h_burst s) (h_quotas s) o b = all6 /\
-  Forall (tagged_good isb) (step_answers (h_limit s) (h_burst s) o b).
+  wf s' /\
+  cfg_after isb (h_limit s) (h_burst s) o = cfg_of s' /\
+  o_quotas b = h_quotas s' /\ o_oquotas b = h_oquotas s' /\
+  step_ok isb (h_limit s) (h_burst s) (h_quotas s) (h_oquotas s) o b = all8 /\
+  Forall tagged_good (step_answers isb (h_limit s) (h_burst s) o b).
 Proof.
-  intros W OK isb s' b. subst s' b. destruct o as [rs|n g|i].
+  intros W OK isb s' b. subst s' b. destruct o as [rs|bk n g|i].
   - (* reports *)
     cbn [model_step].
-    destruct (beat_all_ok rs s W) as (W0 & (T0 & L0 & B0) & Q0).
-    pose proof (run_reports_ok rs _ W0) as RR. cbv zeta in RR.
-    pose proof (single_clauses s {| o_cur := []; o_ans := []; o_quotas := []; o_rec := 0 |}) as SC.
-    destruct (run_reports (beat_all s rs) rs) as [s1 [cs ans]] eqn:E. cbn [fst snd] in RR |- *.
-    destruct RR as (W1 & (T1 & L1 & B1) & GA & F1).
-    rewrite T0, L0, B0 in GA. rewrite L0, Q0 in F1. fold isb in GA.
-    destruct (SC s1 cs ans W rs E) as (S3 & S4).
-    split; [exact W1|]. split; [congruence|]. split; [cbn; f_equal; congruence|]. split; [reflexivity|].
+    pose proof (run_entries_ok rs s W) as RR. cbv zeta in RR.
+    pose proof (single_clauses s rs) as SC.
+    destruct (run_entries s rs) as [s1 [cs ans]] eqn:E. cbn [fst snd] in RR |- *.
+    destruct RR as (W1 & (T1 & L1 & B1) & AA & GA & GC & F1). fold isb in GA, GC.
+    destruct (SC s1 cs ans W eq_refl) as (S3 & S4).
+    split; [exact W1|]. split; [unfold cfg_after, cfg_of, isb; congruence|]. split; [reflexivity|]. split; [reflexivity|].
     pose proof (wf_burst s W) as WB.
     split.
-    + unfold step_ok, all6. cbn [o_ans o_cur o_quotas].
-      rewrite (forallb_good isb (h_limit s) (h_burst s) (fun qb => floor_ok (fst qb)) _
+    + unfold step_ok, all8. cbn [obs_of o_ans o_cur o_quotas].
+      rewrite AA.
+      rewrite (forallb_Forall _ (fun qb => floor_ok (fst qb)) _
                  (fun qb H => proj1 (good_answer_clauses _ _ _ qb WB H)) GA).
-      rewrite (forallb_good isb (h_limit s) (h_burst s) (fun qb => cap_ok (h_limit s) (fst qb)) _
+      rewrite (forallb_Forall _ (fun qb => cap_ok (h_limit s) (fst qb)) _
                  (fun qb H => proj1 (proj2 (good_answer_clauses _ _ _ qb WB H))) GA).
-      rewrite (forallb_good isb (h_limit s) (h_burst s)
-                 (fun qb => burst_ok isb (h_limit s) (h_burst s) (fst qb) (snd qb)) _
+      rewrite (forallb_Forall _ (fun qb => burst_ok isb (h_limit s) (h_burst s) (fst qb) (snd qb)) _
                  (fun qb H => proj2 (proj2 (good_answer_clauses _ _ _ qb WB H))) GA).
       rewrite S3, S4.
-      assert (rec_sum1 (h_quotas s1) <=? Z.max (h_limit s) (rec_sum1 (h_quotas s)) = true) as -> by lia.
-      reflexivity.
-    + unfold step_answers. cbn [o_ans]. clear -GA WB.
+      assert (CO : forallb (fun qb => count_ok isb (h_limit s) (h_burst s) (fst qb) (snd qb))
+                     (answers_with true (item_counts rs) ans) = true).
+      { apply (forallb_Forall _ _ _ (count_pair_ok isb (h_limit s) (h_burst s)) GC). }
+      rewrite CO.
+      destruct (answers_with true (item_counts rs) ans) eqn:En.
+      * assert (rec_sum1 (h_quotas s1) <=? Z.max (h_limit s) (rec_sum1 (h_quotas s)) = true) as -> by (specialize (F1 eq_refl); lia).
+        reflexivity.
+      * reflexivity.
+    + unfold step_answers. cbn [obs_of o_ans]. destruct isb eqn:Eb; [|constructor].
+      clear -GA WB.
       induction GA as [|qb r Hq Hr IH]; [constructor|]. cbn [map]. constructor; [|exact IH].
       unfold tagged_good. split; [exact WB|]. destruct qb; exact Hq.
-  - (* limit change *)
+  - (* schema change *)
     destruct OK as (Hn & Hg). cbn [model_step fst snd].
-    destruct (setlimit_step s n g W Hn Hg) as (W1 & T1 & L1 & B1 & Q1).
-    split; [exact W1|]. split; [exact T1|]. split; [cbn [limit_after]; congruence|]. split; [reflexivity|].
+    destruct (set_step s bk n g W Hn Hg) as (W1 & T1 & L1 & B1 & Q1 & O1).
+    split; [exact W1|].
+    split; [unfold cfg_after, cfg_of; rewrite T1, L1, B1; destruct bk; reflexivity|].
+    split; [reflexivity|]. split; [reflexivity|].
     split; [|constructor].
-    unfold step_ok, all6. cbn [o_quotas]. rewrite Q1.
-    assert (rec_sum1 (h_quotas s) <=? Z.max n (rec_sum1 (h_quotas s)) = true) as -> by lia. reflexivity.
+    unfold step_ok, all8. cbn [obs_of o_quotas]. rewrite Q1. fold isb.
+    destruct (Bool.eqb bk isb);
+      match goal with |- context [?x <=? ?y] => assert (x <=? y = true) as -> by lia end; reflexivity.
   - (* removal *)
     cbn [model_step fst snd].
-    destruct (remove_step s i W) as (W1 & (T1 & L1 & B1) & Q1).
-    split; [exact W1|]. split; [exact T1|]. split; [cbn [limit_after]; congruence|]. split; [reflexivity|].
+    destruct (drop_step s i false W) as (W1 & (T1 & L1 & B1) & Q1 & _).
+    split; [exact W1|]. split; [unfold cfg_after, cfg_of, isb; congruence|]. split; [reflexivity|]. split; [reflexivity|].
     split; [|constructor].
-    unfold step_ok, all6. cbn [o_quotas]. rewrite Q1, rec_sum1_remove.
+    unfold step_ok, all8. cbn [obs_of o_quotas]. rewrite Q1, rec_sum1_remove.
     pose proof (isums_nonneg i _ (wf_q s W)).
     assert (rec_sum1 (h_quotas s) - fsum_i i (h_quotas s) <=? Z.max (h_limit s) (rec_sum1 (h_quotas s)) = true) as -> by lia.
     reflexivity.
 Qed.
 
-(* ---- the whole trace ---- *)
-Lemma hist_rows_model bs : forall s, wf s -> Forall bop_ok bs ->
-  let isb := is_bucket (h_typ s) in
-  let r := hist_rows isb (h_limit s) (h_burst s) (h_quotas s) (model_trace s bs) in
-  fst r = all6 /\ Forall (tagged_good isb) (snd r).
+(* ---- the whole trace of one schema ---- *)
+(* a trace in which every observation is the model's, from the state the previous step left *)
+Inductive chain : sstate -> list (bop * sobs) -> Prop :=
+| chain_nil s : chain s []
+| chain_cons s o r : bop_ok o -> chain (fst (model_step s o)) r -> chain s ((o, snd (model_step s o)) :: r).
+
+Lemma model_trace_chain bs : forall s, Forall bop_ok bs -> chain s (model_trace s bs).
 Proof.
-  induction bs as [|o rest IH]; intros s W OK isb r; subst r.
+  induction bs as [|o rest IH]; intros s OK; [constructor|].
+  inversion OK as [|? ? OK1 OK2]; subst. cbn [model_trace].
+  destruct (model_step s o) as [s' b] eqn:E.
+  replace b with (snd (model_step s o)) by (rewrite E; reflexivity).
+  constructor; [exact OK1|]. rewrite E. cbn [fst]. apply IH. exact OK2.
+Qed.
+
+Lemma hist_rows_chain tr : forall s, wf s -> chain s tr ->
+  let r := hist_rows (is_bucket (h_typ s)) (h_limit s) (h_burst s) (h_quotas s) (h_oquotas s) tr in
+  fst r = all8 /\ Forall tagged_good (snd r).
+Proof.
+  induction tr as [|[o b] rest IH]; intros s W C r; subst r.
   - cbn. split; [reflexivity|constructor].
-  - inversion OK as [|? ? OK1 OK2]; subst.
-    cbn [model_trace].
+  - inversion C as [|? ? ? OK1 C2]; subst.
     pose proof (model_step_ok s o W OK1) as MS. cbv zeta in MS.
-    destruct (model_step s o) as [s' b] eqn:E. cbn [fst snd] in MS.
-    destruct MS as (W' & T' & LA & Q' & ROW & ANS).
-    cbn [hist_rows]. fold isb in ROW, ANS |- *.
-    rewrite ROW. rewrite LA. rewrite Q'.
-    specialize (IH s' W' OK2). cbv zeta in IH. rewrite T' in IH. fold isb in IH.
-    destruct (hist_rows isb (h_limit s') (h_burst s') (h_quotas s') (model_trace s' rest)) as [rows answers].
+    destruct MS as (W' & CA & Q' & O' & ROW & ANS).
+    cbn [hist_rows]. rewrite ROW, CA. unfold cfg_of. rewrite Q', O'.
+    specialize (IH _ W' C2). cbv zeta in IH.
+    destruct (hist_rows (is_bucket (h_typ (fst (model_step s o)))) (h_limit (fst (model_step s o)))
+                (h_burst (fst (model_step s o))) (h_quotas (fst (model_step s o)))
+                (h_oquotas (fst (model_step s o))) rest) as [rows answers].
     cbn [fst snd] in IH |- *. destruct IH as (-> & GA).
     split; [reflexivity|].
     apply Forall_app. split; [|exact GA].
     unfold step_answers in ANS. destruct o; [exact ANS|constructor|constructor].
 Qed.
 
-Lemma burst_mono_good answers : Forall (tagged_good true) answers -> burst_mono_ok answers = true.
+Lemma burst_mono_good answers : Forall tagged_good answers -> burst_mono_ok answers = true.
 Proof.
   intros H. unfold burst_mono_ok.
   apply forallb_forall. intros a Ha. apply forallb_forall. intros a' Ha'.
@@ -729,39 +785,132 @@ Proof.
   apply Z.leb_le. apply burst_real_mono; lia.
 Qed.
 
-Definition all7 : list bool := [true; true; true; true; true; true; true].
+Theorem chain_ok s tr : wf s -> chain s tr ->
+  hist_ok (is_bucket (h_typ s)) (h_limit s) (h_burst s) (h_quotas s) (h_oquotas s) tr = all9.
+Proof.
+  intros W C. pose proof (hist_rows_chain tr s W C) as H. cbv zeta in H.
+  unfold hist_ok.
+  destruct (hist_rows (is_bucket (h_typ s)) (h_limit s) (h_burst s) (h_quotas s) (h_oquotas s) tr) as [rows answers].
+  cbn [fst snd] in H. destruct H as (-> & GA).
+  rewrite (burst_mono_good _ GA). reflexivity.
+Qed.
 
 Theorem history_ok s bs : wf s -> Forall bop_ok bs ->
-  hist_ok (is_bucket (h_typ s)) (h_limit s) (h_burst s) (h_quotas s) (model_trace s bs) = all7.
-Proof.
-  intros W OK. pose proof (hist_rows_model bs s W OK) as H. cbv zeta in H.
-  unfold hist_ok.
-  destruct (hist_rows (is_bucket (h_typ s)) (h_limit s) (h_burst s) (h_quotas s) (model_trace s bs)) as [rows answers].
-  cbn [fst snd] in H. destruct H as (-> & GA).
-  destruct (is_bucket (h_typ s)); [rewrite (burst_mono_good _ GA)|]; reflexivity.
-Qed.
+  hist_ok (is_bucket (h_typ s)) (h_limit s) (h_burst s) (h_quotas s) (h_oquotas s) (model_trace s bs) = all9.
+Proof. intros W OK. apply chain_ok; [exact W|apply model_trace_chain; exact OK]. Qed.
 
 (* overlap: whichever order the per-upstream mutex serialises the reports of a batch in,
    the batch meets the spec (the order is a permutation of the reports issued) *)
 Theorem overlap_ok s rs rs' : wf s -> Permutation rs rs' ->
-  step_ok (is_bucket (h_typ s)) (h_limit s) (h_burst s) (h_quotas s) (BReports rs)
-          (snd (model_step s (BReports rs'))) = all6.
+  step_ok (is_bucket (h_typ s)) (h_limit s) (h_burst s) (h_quotas s) (h_oquotas s) (BReports rs')
+          (snd (model_step s (BReports rs'))) = all8.
 Proof.
   intros W _. pose proof (model_step_ok s (BReports rs') W I) as MS. cbv zeta in MS.
   destruct MS as (_ & _ & _ & _ & ROW & _). exact ROW.
 Qed.
 
-(* the invariant behind the over_commit clause, stated on model states: the sum of the
-   quotas above the minimum never exceeds max(limit, its previous value) *)
-Theorem over_commit_invariant s o : wf s -> bop_ok o ->
-  let s' := fst (model_step s o) in
-  wf s' /\ rec_sum1 (h_quotas s') <= Z.max (h_limit s') (rec_sum1 (h_quotas s)).
+(* ============================ Part C: several schemas ============================ *)
+Definition wfM (M : mstate) : Prop := Forall (fun ks => wf (snd ks)) (m_schemas M).
+
+Definition mop_ok (o : mop) : Prop :=
+  match o with MSet _ _ n g => 0 <= n < two31 /\ in_int32 g | _ => True end.
+
+Fixpoint mtrace (M : mstate) (ops : list mop) : list (list (Z * option (bop * sobs))) :=
+  match ops with
+  | [] => []
+  | o :: r => let (M', ms) := mstep_with M (clients_after M o) (issued o) in ms :: mtrace M' r
+  end.
+
+Fixpoint find_ms (sid : Z) (ms : list (Z * option (bop * sobs))) : option (option (bop * sobs)) :=
+  match ms with [] => None | (k, x) :: r => if k =? sid then Some x else find_ms sid r end.
+
+(* what the steps did to schema [sid] *)
+Fixpoint pick (sid : Z) (tr : list (list (Z * option (bop * sobs)))) : list (bop * sobs) :=
+  match tr with
+  | [] => []
+  | ms :: r => match find_ms sid ms with Some (Some x) => x :: pick sid r | _ => pick sid r end
+  end.
+
+Lemma derive_ok M clients sid o b : mop_ok o -> derive M clients sid (issued o) = Some b -> bop_ok b.
 Proof.
-  intros W OK s'. subst s'. pose proof (model_step_ok s o W OK) as MS. cbv zeta in MS.
-  destruct MS as (W' & _ & LA & Q' & ROW & _). split; [exact W'|].
-  unfold step_ok, all6 in ROW. rewrite Q' in ROW.
-  destruct o as [rs|n g|i]; cbn [limit_after] in LA; pose proof (f_equal fst LA) as E1; cbn [fst] in E1;
-    unfold all6 in ROW; cbn [step_ok] in ROW;
-    match type of ROW with [_; _; _; _; _; ?x] = _ => assert (R : x = true) by congruence end;
-    rewrite <- E1; lia.
+  destruct o as [rs|sid' t n g|i]; cbn [issued derive]; intros OK E.
+  - inversion E; subst. exact I.
+  - destruct (sid' =? sid); [|discriminate]. inversion E; subst. exact OK.
+  - inversion E; subst. exact I.
+Qed.
+
+Lemma find_map_step (g : Z * sstate -> Z * sstate * option (bop * sobs)) l sid s :
+  (forall ks, fst (fst (g ks)) = fst ks) -> find_schema sid l = Some s ->
+  find_schema sid (map (fun x => (fst (fst (g x)), snd (fst (g x)))) l) = Some (snd (fst (g (sid, s)))) /\
+  find_ms sid (map (fun x => (fst (fst (g x)), snd (g x))) l) = Some (snd (g (sid, s))).
+Proof.
+  intros Hk. induction l as [|[k sk] rest IH]; intros F; [discriminate|].
+  cbn [find_schema] in F. cbn [map find_schema find_ms]. rewrite (Hk (k, sk)). cbn [fst].
+  destruct (Z.eqb_spec k sid) as [->|Hne].
+  - inversion F; subst. split; reflexivity.
+  - apply IH. exact F.
+Qed.
+
+Lemma mstep_schema M cl o sid s : wfM M -> mop_ok o -> find_schema sid (m_schemas M) = Some s ->
+  let r := mstep_with M cl (issued o) in
+  wfM (fst r) /\
+  match derive M (m_extra M + Z.of_nat (List.length cl)) sid (issued o) with
+  | Some b => bop_ok b /\ find_schema sid (m_schemas (fst r)) = Some (fst (model_step s b)) /\
+              find_ms sid (snd r) = Some (Some (b, snd (model_step s b)))
+  | None => find_schema sid (m_schemas (fst r)) = Some s /\ find_ms sid (snd r) = Some None
+  end.
+Proof.
+  intros WM OK F r. subst r. unfold mstep_with. cbn [fst snd m_schemas].
+  set (clients := m_extra M + Z.of_nat (List.length cl)).
+  set (f := fun ks : Z * sstate =>
+              match derive M clients (fst ks) (issued o) with
+              | Some b => let (s', ob) := model_step (snd ks) b in (fst ks, s', Some (b, ob))
+              | None => (fst ks, snd ks, None)
+              end).
+  split.
+  - clear F. unfold wfM in *. cbn [m_schemas]. rewrite map_map. revert WM.
+    generalize (m_schemas M) as l. induction l as [|[k sk] rest IH]; intros WM; [constructor|].
+    inversion WM as [|? ? W1 W2]; subst. cbn [map]. constructor; [|apply IH; exact W2].
+    unfold f. cbn [fst snd].
+    destruct (derive M clients k (issued o)) as [b|] eqn:D.
+    + pose proof (model_step_ok sk b W1 (derive_ok _ _ _ _ _ OK D)) as MS. cbv zeta in MS.
+      destruct (model_step sk b) as [s' ob]. cbn [fst snd] in *. exact (proj1 MS).
+    + exact W1.
+  - clear WM. rewrite !map_map.
+    assert (Hk : forall ks, fst (fst (f ks)) = fst ks).
+    { intros [k sk]. unfold f. cbn [fst snd]. destruct (derive M clients k (issued o)); [destruct (model_step sk b)|]; reflexivity. }
+    destruct (find_map_step f (m_schemas M) sid s Hk F) as (F1 & F2). rewrite F1, F2.
+    unfold f. cbn [fst snd].
+    destruct (derive M clients sid (issued o)) as [b|] eqn:D.
+    + destruct (model_step s b) as [s' ob]. cbn [fst snd].
+      split; [exact (derive_ok _ _ _ _ _ OK D)|]. split; reflexivity.
+    + split; reflexivity.
+Qed.
+
+Lemma pick_chain ops : forall M sid s, wfM M -> Forall mop_ok ops ->
+  find_schema sid (m_schemas M) = Some s -> chain s (pick sid (mtrace M ops)).
+Proof.
+  induction ops as [|o rest IH]; intros M sid s WM OK F; [constructor|].
+  inversion OK as [|? ? OK1 OK2]; subst. cbn [mtrace].
+  pose proof (mstep_schema M (clients_after M o) o sid s WM OK1 F) as MS. cbv zeta in MS.
+  destruct (mstep_with M (clients_after M o) (issued o)) as [M' ms] eqn:E. cbn [fst snd] in MS.
+  destruct MS as (WM' & H). cbn [pick].
+  destruct (derive M (m_extra M + Z.of_nat (List.length (clients_after M o))) sid (issued o)) as [b|].
+  - destruct H as (Hb & F' & Hms). rewrite Hms. constructor; [exact Hb|]. apply (IH M'); assumption.
+  - destruct H as (F' & Hms). rewrite Hms. apply (IH M'); assumption.
+Qed.
+
+(* every schema of the upstream, over every history of multi-schema reports (refused when an item
+   type does not fit), schema changes incl. the item type, and removals *)
+Theorem multi_history_ok M ops sid s : wfM M -> Forall mop_ok ops ->
+  find_schema sid (m_schemas M) = Some s ->
+  hist_ok (is_bucket (h_typ s)) (h_limit s) (h_burst s) (h_quotas s) (h_oquotas s) (pick sid (mtrace M ops)) = all9.
+Proof.
+  intros WM OK F. apply chain_ok.
+  - unfold wfM in WM. rewrite Forall_forall in WM.
+    assert (In (sid, s) (m_schemas M)).
+    { clear -F. induction (m_schemas M) as [|[k sk] r IH]; [discriminate|]. cbn [find_schema] in F.
+      destruct (Z.eqb_spec k sid) as [->|]; [inversion F; left; reflexivity|right; apply IH; exact F]. }
+    exact (WM _ H).
+  - apply pick_chain with (M := M); assumption.
 Qed.
